@@ -64,9 +64,9 @@ def finish_nontrivial(ctx, rule: str) -> None:
     ctx.set("rule", rule)
 
 
-def random_cases(seed: int, n: int, *, lines=(8, 40), meta_p=0.3, tag="rnd") -> list:
+def random_cases(seed: int, n: int, *, lines=(8, 40), meta_p=0.3, tag="rnd", want_zid=None) -> list:
     g = bp.Gen(random.Random(seed))
-    return [(f"{tag}{i}", g.a_page(n_lines=lines, meta_p=meta_p), pages.TODAY) for i in range(n)]
+    return [(f"{tag}{i}", g.a_page(n_lines=lines, meta_p=meta_p, want_zid=want_zid), pages.TODAY) for i in range(n)]
 
 
 def replay_case(ctx, rep: dict, fields: set) -> int:
